@@ -938,9 +938,85 @@ func caseQLive(cfg *RunCfg, st *Stats, w *CaseWriter, idx int) string {
 	n := 6 + r.Intn(16)
 	admitted, admittedA := int64(0), int64(0)
 	budget, budgetA := int64(total), int64(hand)
+	capT, capH := total, hand // largest capacity configured since the bucket instance exists
+	total0, hand0, iv0 := total, hand, iv
 	fail := func(key, what string) { st.Fail(idx, key, what, strings.Join(human, " ")) }
+	sameQPS := func(a, b *overloader.VerifQPS) bool { return a != nil && b != nil && *a == *b }
+loop:
 	for k := 0; k < n; k++ {
-		switch x := r.Intn(10); {
+		switch x := r.Intn(12); {
+		case x >= 10:
+			// Overloader.Update while the session is live: total limit and handler limit raised,
+			// lowered, removed (0) or re-created, interval kept or changed.  An interval change
+			// restarts the limiter's ticker; it is stopped again as soon as Update has returned
+			// (the new interval is >= 500 ms; a history whose Update took longer than 200 ms is cut).
+			nt, nh, niv := int32(r.Intn(7)), int32(r.Intn(4)), iv
+			if r.Intn(2) == 0 {
+				niv = []int64{int64(500 * time.Millisecond), int64(time.Second)}[r.Intn(2)]
+			}
+			nlc := overloader.LimitConfig{QPSInterval: time.Duration(niv), MaxTotalQPS: nt}
+			if nh > 0 {
+				nlc.MaxHandlerQPS = []overloader.HandlerLimit{{ServiceMethod: "/h/a", MaxQPS: nh}}
+			}
+			var tokT, tokH int32
+			if tq != nil {
+				tokT = tq.Tokens()
+			}
+			if hq != nil {
+				tokH = hq.Tokens()
+			}
+			t0 := time.Now()
+			ol.Update(nlc)
+			ntq, nhq := ol.VerifTotalQPS(), ol.VerifHandlerQPS("/h/a")
+			if time.Since(t0) > 200*time.Millisecond {
+				st.Count("qlive:update-too-slow-history-cut")
+				break loop
+			}
+			human = append(human, fmt.Sprintf("upd(total=%d,handler=%d,interval=%dms)", nt, nh, niv/1e6))
+			// a limiter that existed and still has a limit keeps its bucket: a bucket replaced by a
+			// fresh (full) one hands tokens out again that no refill tick paid for
+			if total > 0 && nt > 0 && !sameQPS(tq, ntq) {
+				fail("bucket-bound", fmt.Sprintf("Update(MaxTotalQPS %d -> %d) replaced the total rate limiter by a fresh full bucket", total, nt))
+			}
+			if hand > 0 && nh > 0 && !sameQPS(hq, nhq) {
+				fail("bucket-bound", fmt.Sprintf("Update(handler MaxQPS %d -> %d) replaced the handler's rate limiter by a fresh full bucket", hand, nh))
+			}
+			if (ntq != nil) != (nt > 0) || (nhq != nil) != (nh > 0) {
+				fail("limiter-presence", fmt.Sprintf("Update(total %d, handler %d): total limiter present=%v, handler limiter present=%v", nt, nh, ntq != nil, nhq != nil))
+			}
+			if ntq != nil && !sameQPS(tq, ntq) {
+				admitted, budget, capT = 0, int64(ntq.Tokens()), nt
+				if ntq.Tokens() > nt {
+					fail("over-capacity", fmt.Sprintf("a new total bucket of capacity %d starts with %d tokens", nt, ntq.Tokens()))
+				}
+			} else if ntq != nil {
+				if ntq.Tokens() > tokT {
+					fail("bucket-bound", fmt.Sprintf("Update raised the tokens of the total bucket from %d to %d without a refill tick", tokT, ntq.Tokens()))
+				}
+				if nt > capT {
+					capT = nt
+				}
+				if ntq.Limit() != nt {
+					fail("limit-config", fmt.Sprintf("configured MaxTotalQPS %d, the limiter's limit is %d", nt, ntq.Limit()))
+				}
+			}
+			if nhq != nil && !sameQPS(hq, nhq) {
+				admittedA, budgetA, capH = 0, int64(nhq.Tokens()), nh
+			} else if nhq != nil {
+				if nhq.Tokens() > tokH {
+					fail("bucket-bound", fmt.Sprintf("Update raised the tokens of the handler bucket from %d to %d without a refill tick", tokH, nhq.Tokens()))
+				}
+				if nh > capH {
+					capH = nh
+				}
+				if nhq.Limit() != nh {
+					fail("limit-config", fmt.Sprintf("configured handler MaxQPS %d, the limiter's limit is %d", nh, nhq.Limit()))
+				}
+			}
+			tq, hq, total, hand, iv = ntq, nhq, nt, nh, niv
+			evs = append(evs, VL(VS("upd"), VN(int64(nt)), VN(int64(nh)), VN(niv)))
+			obs = append(obs, VL(VS("upd"), tokStr(tq), tokStr(hq)))
+			st.Count("qlive:update-events")
 		case x < 6:
 			m := "a"
 			if r.Intn(2) == 0 {
@@ -1014,20 +1090,22 @@ func caseQLive(cfg *RunCfg, st *Stats, w *CaseWriter, idx int) string {
 			if tq != nil {
 				budget += int64(tq.Once())
 				tq.Tick()
+				capT = total // a tick cuts the bucket down to the current limit
 			}
 			if hq != nil {
 				budgetA += int64(hq.Once())
 				hq.Tick()
+				capH = hand
 			}
 			evs = append(evs, VS("tick"))
 			obs = append(obs, VL(VS("tick"), tokStr(tq), tokStr(hq)))
 			human = append(human, "tick")
 		}
-		if tq != nil && tq.Tokens() > total {
-			fail("over-capacity", fmt.Sprintf("total bucket holds %d tokens, capacity %d", tq.Tokens(), total))
+		if tq != nil && tq.Tokens() > capT {
+			fail("over-capacity", fmt.Sprintf("total bucket holds %d tokens, capacity %d", tq.Tokens(), capT))
 		}
-		if hq != nil && hq.Tokens() > hand {
-			fail("over-capacity", fmt.Sprintf("handler bucket holds %d tokens, capacity %d", hq.Tokens(), hand))
+		if hq != nil && hq.Tokens() > capH {
+			fail("over-capacity", fmt.Sprintf("handler bucket holds %d tokens, capacity %d", hq.Tokens(), capH))
 		}
 		if tq != nil && admitted > budget {
 			fail("bucket-bound", fmt.Sprintf("%d calls/pushes admitted, capacity + refills = %d", admitted, budget))
@@ -1036,8 +1114,8 @@ func caseQLive(cfg *RunCfg, st *Stats, w *CaseWriter, idx int) string {
 			fail("bucket-bound", fmt.Sprintf("%d calls of /h/a admitted, handler capacity + refills = %d", admittedA, budgetA))
 		}
 	}
-	w.Add(VL(VS("qlive"), VN(int64(total)), VN(int64(hand)), VN(iv), VL(evs...)), VL(obs...))
-	return fmt.Sprintf("qlive total=%d handler=%d interval=%dms %s", total, hand, iv/1e6, strings.Join(human, " "))
+	w.Add(VL(VS("qlive"), VN(int64(total0)), VN(int64(hand0)), VN(iv0), VL(evs...)), VL(obs...))
+	return fmt.Sprintf("qlive total=%d handler=%d interval=%dms %s", total0, hand0, iv0/1e6, strings.Join(human, " "))
 }
 
 // ---------------------------------------------------------------- wall clock
@@ -1188,7 +1266,7 @@ func main() {
 		}
 	})
 	st := NewStats("C18", cfg)
-	st.Rule = "histories drawn from 7 kinds: cseq/qseq = random op sequences on the limiter handles; cconc/qconc = random forced interleavings of 2-4 goroutines parked at the gate points (plus the lost-update schedule of the refuted theorem); live = accept / refuse-by-earlier-plugin / refuse-by-limit / refuse-by-later-plugin / concurrent batch / close (client or server side) / limit update incl. limiter off and on again (fresh limiter instance) / duplicate disconnect on a real peer, a third of the server-side conns report an error from Close; dial = the same with the plugin in the dialing peer; qlive = calls, pushes and harness-driven ticks through a live session; wall = 2 (thorough 8) wall-clock runs of the real plugin with real tickers after limit/interval updates, 1 s of sustained calls. distinct by kind + event string; non-trivial = at least one refusal or one interleaved step"
+	st.Rule = "histories drawn from 9 kinds: cseq/qseq = random op sequences on the limiter handles; cconc/qconc = random forced interleavings of 2-4 goroutines parked at the gate points (plus the lost-update schedule of the refuted theorem); live = accept / refuse-by-earlier-plugin / refuse-by-limit / refuse-by-later-plugin / concurrent batch / close (client or server side) / limit update incl. limiter off and on again (fresh limiter instance) / duplicate disconnect on a real peer, a third of the server-side conns report an error from Close; dial = the same with the plugin in the dialing peer; ulive / udial = Update-centred histories on the accept / dial side: fill, then Overloader.Update events (limit raised, lowered, removed = MaxConn <= 0, re-created; three quarters of them remove and re-create the limiter) while the sessions live, then the old sessions end, then limit+1 new connections, a handle kept on every limiter instance; qlive = calls, pushes, harness-driven ticks and Overloader.Update events (total / handler limit raised, lowered, removed, re-created, interval changed) through a live session; wall = 2 (thorough 8) wall-clock runs of the real plugin with real tickers after limit/interval updates, 1 s of sustained calls. distinct by kind + event string; non-trivial = at least one refusal or one interleaved step"
 	w := NewCaseWriter(cfg)
 	distinct := DistinctSet{}
 	for i := 0; i < cfg.N; i++ {
@@ -1198,24 +1276,30 @@ func main() {
 		case i == 0:
 			desc, sig = caseQConc(cfg, st, w, i, true)
 			st.Count("kind:qconc-lostupdate")
-		case k < 15:
+		case k < 12:
 			desc = caseCSeq(cfg, st, w, i)
 			st.Count("kind:cseq")
-		case k < 37:
+		case k < 30:
 			desc, sig = caseCConc(cfg, st, w, i)
 			st.Count("kind:cconc")
-		case k < 50:
+		case k < 40:
 			desc = caseQSeq(cfg, st, w, i)
 			st.Count("kind:qseq")
-		case k < 70:
+		case k < 56:
 			desc, sig = caseQConc(cfg, st, w, i, false)
 			st.Count("kind:qconc")
-		case k < 85:
+		case k < 68:
 			desc = caseLive(cfg, st, w, i)
 			st.Count("kind:live")
-		case k < 92:
+		case k < 74:
 			desc = caseDial(cfg, st, w, i)
 			st.Count("kind:dial")
+		case k < 86:
+			desc = caseUpd(cfg, st, w, i, false)
+			st.Count("kind:ulive")
+		case k < 92:
+			desc = caseUpd(cfg, st, w, i, true)
+			st.Count("kind:udial")
 		default:
 			desc = caseQLive(cfg, st, w, i)
 			st.Count("kind:qlive")
